@@ -14,3 +14,265 @@ Proof.
   specialize (H _ Hin). cbn [fst snd] in H.
   destruct (lookup tab a b) as [c|]; [exists c; split; [reflexivity|exact H] | discriminate].
 Qed.
+
+(* ---- integer wrap arithmetic ---------------------------------------- *)
+Lemma cbits_pos t : 0 < cbits t.
+Proof. destruct t; cbn; lia. Qed.
+
+Lemma pow2_pos n : 0 <= n -> 0 < 2 ^ n.
+Proof. intros; apply Z.pow_pos_nonneg; lia. Qed.
+
+Lemma mod_mod_pow x n m : 0 <= n <= m -> (x mod 2 ^ m) mod 2 ^ n = x mod 2 ^ n.
+Proof.
+  intros [Hn Hm]. symmetry. apply Znumtheory.Zmod_div_mod.
+  - apply pow2_pos; lia.
+  - apply pow2_pos; lia.
+  - exists (2 ^ (m - n)). rewrite <- Z.pow_add_r by lia. f_equal. lia.
+Qed.
+
+(* wrap t z is congruent to z modulo 2^bits *)
+Lemma wrap_mod t z : (wrap t z) mod 2 ^ cbits t = z mod 2 ^ cbits t.
+Proof.
+  unfold wrap. pose proof (cbits_pos t) as Hp.
+  assert (H2 : 2 ^ cbits t <> 0) by (apply Z.pow_nonzero; lia).
+  destruct (csigned t && (2 ^ (cbits t - 1) <=? z mod 2 ^ cbits t)).
+  - replace (z mod 2 ^ cbits t - 2 ^ cbits t) with (z mod 2 ^ cbits t + (-1) * 2 ^ cbits t) by lia.
+    rewrite Z.mod_add by exact H2. apply Z.mod_mod; exact H2.
+  - apply Z.mod_mod; exact H2.
+Qed.
+
+Lemma wrap_mod_le t z n : 0 <= n <= cbits t -> (wrap t z) mod 2 ^ n = z mod 2 ^ n.
+Proof.
+  intros Hn. rewrite <- (mod_mod_pow (wrap t z) n (cbits t)) by exact Hn.
+  rewrite wrap_mod. apply mod_mod_pow; exact Hn.
+Qed.
+
+Lemma wrap_of_mod t z : wrap t (z mod 2 ^ cbits t) = wrap t z.
+Proof.
+  unfold wrap. pose proof (cbits_pos t). rewrite Z.mod_mod by (apply Z.pow_nonzero; lia). reflexivity.
+Qed.
+
+Lemma wrap_ext a b z : cbits a = cbits b -> csigned a = csigned b -> wrap a z = wrap b z.
+Proof. unfold wrap; intros -> ->; reflexivity. Qed.
+
+Lemma pow2_half n : 0 < n -> 2 ^ n = 2 * 2 ^ (n - 1).
+Proof. intros; rewrite <- Z.pow_succ_r by lia; f_equal; lia. Qed.
+
+Lemma wrap_in_range t z : is_int t = true -> in_range t (wrap t z) = true.
+Proof.
+  intros Hi. unfold in_range, imin, imax, wrap.
+  pose proof (cbits_pos t) as Hp.
+  pose proof (pow2_half (cbits t) Hp) as Hh.
+  pose proof (pow2_pos (cbits t - 1) ltac:(lia)) as Hq.
+  pose proof (Z.mod_pos_bound z (2 ^ cbits t) ltac:(lia)) as Hm.
+  destruct (csigned t); cbn [andb].
+  - destruct (Z.leb_spec (2 ^ (cbits t - 1)) (z mod 2 ^ cbits t)); apply andb_true_intro; split; apply Z.leb_le; lia.
+  - apply andb_true_intro; split; apply Z.leb_le; lia.
+Qed.
+
+(* a value already in range is unchanged by the conversion *)
+Lemma wrap_id t z : in_range t z = true -> wrap t z = z.
+Proof.
+  unfold in_range, imin, imax, wrap. intros H. apply andb_prop in H as [H1 H2].
+  apply Z.leb_le in H1. apply Z.leb_le in H2.
+  pose proof (cbits_pos t) as Hp.
+  pose proof (pow2_half (cbits t) Hp) as Hh.
+  pose proof (pow2_pos (cbits t - 1) ltac:(lia)) as Hq.
+  destruct (csigned t); cbn [andb].
+  - destruct (Z.leb_spec (2 ^ (cbits t - 1)) (z mod 2 ^ cbits t)) as [Hc|Hc].
+    + destruct (Z_lt_le_dec z 0) as [Hn|Hn].
+      * replace z with (z + 2 ^ cbits t + (-1) * 2 ^ cbits t) at 1 by lia.
+        rewrite Z.mod_add by lia. rewrite Z.mod_small by lia. lia.
+      * rewrite Z.mod_small in Hc by lia. lia.
+    + destruct (Z_lt_le_dec z 0) as [Hn|Hn].
+      * replace z with (z + 2 ^ cbits t + (-1) * 2 ^ cbits t) in Hc at 1 by lia.
+        rewrite Z.mod_add in Hc by lia. rewrite Z.mod_small in Hc by lia. lia.
+      * apply Z.mod_small; lia.
+  - apply Z.mod_small; lia.
+Qed.
+
+Lemma wrap_idem t z : is_int t = true -> wrap t (wrap t z) = wrap t z.
+Proof. intros; apply wrap_id, wrap_in_range; assumption. Qed.
+
+(* ---- boolean plumbing -------------------------------------------------- *)
+Lemma ctype_eqb_eq a b : ctype_eqb a b = true -> a = b.
+Proof. destruct a, b; cbn; congruence. Qed.
+Lemma gdtype_eqb_eq a b : gdtype_eqb a b = true -> a = b.
+Proof. destruct a, b; cbn; congruence. Qed.
+
+Ltac split_andb :=
+  repeat match goal with
+  | H : _ && _ = true |- _ => apply andb_prop in H; destruct H
+  end.
+
+Lemma range_sub_in_range a b z :
+  range_sub a b = true -> in_range a z = true -> in_range b z = true.
+Proof.
+  unfold range_sub, in_range. intros H1 H2. split_andb.
+  repeat match goal with H : (_ <=? _) = true |- _ => apply Z.leb_le in H end.
+  apply andb_true_intro; split; apply Z.leb_le; lia.
+Qed.
+
+(* ---- one element -------------------------------------------------------- *)
+(* integer destination: what conv_elem stores, in closed form *)
+Lemma conv_elem_int_int dst cast src b :
+  is_int src = true -> is_int cast = true -> is_int dst = true ->
+  conv_elem dst cast src b = Some ((wrap dst (wrap cast (wrap src b))) mod 2 ^ cbits dst).
+Proof.
+  intros Hs Hc Hd. unfold conv_elem.
+  destruct src; try discriminate; destruct cast; try discriminate; destruct dst; try discriminate; reflexivity.
+Qed.
+
+Lemma elem_ok_sound dst cast src ei eo b r :
+  elem_ok dst cast src ei eo = true ->
+  conv_elem eo eo ei b = Some r -> conv_elem dst cast src b = Some r.
+Proof.
+  unfold elem_ok. intros H Hs. split_andb.
+  repeat match goal with H : (_ =? _) = true |- _ => apply Z.eqb_eq in H end.
+  destruct (cfloat ei) eqn:Fi, (cfloat eo) eqn:Fo.
+  - (* float -> float *)
+    split_andb. repeat match goal with H : ctype_eqb _ _ = true |- _ => apply ctype_eqb_eq in H; subst end. exact Hs.
+  - (* float -> int *)
+    split_andb. match goal with H : ctype_eqb src ei = true |- _ => apply ctype_eqb_eq in H; subst src end.
+    match goal with H : (_ <=? _) = true |- _ => apply Z.leb_le in H end.
+    unfold conv_elem in *.
+    assert (Hio : is_int eo = true) by (unfold is_int; rewrite Fo; reflexivity).
+    destruct (load ei b) as [z|f|f] eqn:L.
+    + destruct ei; cbn in L; try discriminate; cbn in Fi; discriminate.
+    + (* binary32 source *)
+      assert (Hsp : ccast eo (VF32 f) = match f_to_z f with Some z => if in_range eo z then Some (VI z) else None | None => None end)
+        by (destruct eo; try discriminate Fo; reflexivity).
+      assert (Hmo : ccast cast (VF32 f) = match f_to_z f with Some z => if in_range cast z then Some (VI z) else None | None => None end)
+        by (destruct cast; try discriminate; reflexivity).
+      rewrite Hsp in Hs. rewrite Hmo.
+      destruct (f_to_z f) as [z|]; [|discriminate].
+      destruct (in_range eo z) eqn:R; [|discriminate].
+      rewrite (range_sub_in_range eo cast z) by assumption.
+      cbn [opt_bind] in *.
+      assert (Hc1 : ccast eo (VI z) = Some (VI (wrap eo z))) by (destruct eo; try discriminate Fo; reflexivity).
+      assert (Hc2 : ccast dst (VI z) = Some (VI (wrap dst z))) by (destruct dst; try discriminate; reflexivity).
+      rewrite Hc1 in Hs. rewrite Hc2. cbn [opt_bind store] in *.
+      injection Hs as <-. f_equal.
+      match goal with H : cbits dst = cbits eo |- _ => rewrite H; pose proof H as Hbits end.
+      rewrite wrap_mod. rewrite <- Hbits. rewrite wrap_mod. reflexivity.
+    + (* binary64 source *)
+      assert (Hsp : ccast eo (VF64 f) = match f_to_z f with Some z => if in_range eo z then Some (VI z) else None | None => None end)
+        by (destruct eo; try discriminate Fo; reflexivity).
+      assert (Hmo : ccast cast (VF64 f) = match f_to_z f with Some z => if in_range cast z then Some (VI z) else None | None => None end)
+        by (destruct cast; try discriminate; reflexivity).
+      rewrite Hsp in Hs. rewrite Hmo.
+      destruct (f_to_z f) as [z|]; [|discriminate].
+      destruct (in_range eo z) eqn:R; [|discriminate].
+      rewrite (range_sub_in_range eo cast z) by assumption.
+      cbn [opt_bind] in *.
+      assert (Hc1 : ccast eo (VI z) = Some (VI (wrap eo z))) by (destruct eo; try discriminate Fo; reflexivity).
+      assert (Hc2 : ccast dst (VI z) = Some (VI (wrap dst z))) by (destruct dst; try discriminate; reflexivity).
+      rewrite Hc1 in Hs. rewrite Hc2. cbn [opt_bind store] in *.
+      injection Hs as <-. f_equal.
+      match goal with H : cbits dst = cbits eo |- _ => rewrite H; pose proof H as Hbits end.
+      rewrite wrap_mod. rewrite <- Hbits. rewrite wrap_mod. reflexivity.
+  - (* int -> float *)
+    split_andb. repeat match goal with H : ctype_eqb _ _ = true |- _ => apply ctype_eqb_eq in H; subst end. exact Hs.
+  - (* int -> int *)
+    split_andb.
+    assert (Hie : is_int ei = true) by (unfold is_int; rewrite Fi; reflexivity).
+    assert (Hio : is_int eo = true) by (unfold is_int; rewrite Fo; reflexivity).
+    rewrite conv_elem_int_int in Hs by assumption.
+    rewrite conv_elem_int_int by assumption.
+    injection Hs as <-. f_equal.
+    match goal with H : (_ <=? _) = true |- _ => apply Z.leb_le in H end.
+    pose proof (cbits_pos eo) as Hp.
+    replace (cbits dst) with (cbits eo) by congruence.
+    assert (Hbits : cbits dst = cbits eo) by congruence.
+    rewrite !(wrap_mod eo). rewrite <- Hbits at 1. rewrite (wrap_mod dst). rewrite Hbits.
+    rewrite (wrap_mod_le cast (wrap src b) (cbits eo)) by lia.
+    match goal with H : _ || _ = true |- _ => apply orb_prop in H; destruct H as [Hsg|Hw] end.
+    + apply eqb_prop in Hsg. rewrite (wrap_ext src ei) by congruence. reflexivity.
+    + apply Z.leb_le in Hw.
+      rewrite (wrap_mod_le src b (cbits eo)) by lia.
+      rewrite (wrap_mod_le ei b (cbits eo)) by lia. reflexivity.
+Qed.
+
+Lemma map_opt_ext {A B} (f g : A -> option B) l r :
+  (forall x y, f x = Some y -> g x = Some y) -> map_opt f l = Some r -> map_opt g l = Some r.
+Proof.
+  intros Hfg. revert r. induction l as [|x xs IH]; cbn; intros r H; [exact H|].
+  destruct (f x) as [y|] eqn:Fx; [|discriminate]. rewrite (Hfg _ _ Fx). cbn [opt_bind] in *.
+  destruct (map_opt f xs) as [ys|]; [|discriminate]. rewrite (IH ys eq_refl). exact H.
+Qed.
+
+(* identity conversion of one component, in closed form *)
+Lemma conv_elem_same e b : conv_elem e e e b = Some (store e (load e b)).
+Proof.
+  destruct (cfloat e) eqn:F.
+  - destruct e; try discriminate F; reflexivity.
+  - assert (Hi : is_int e = true) by (unfold is_int; rewrite F; reflexivity).
+    rewrite conv_elem_int_int by assumption. rewrite !wrap_idem by assumption.
+    destruct e; try discriminate F; reflexivity.
+Qed.
+
+(* ---- the soundness of the decision procedure ---------------------------- *)
+Theorem cell_ok_sound tin tout c comps r :
+  cell_ok tin tout c = true ->
+  spec_conv tin tout comps = Some r ->
+  eval_cell c tin tout comps = Some r.
+Proof.
+  intros Hok Hs. destruct c as [k t|twice dst cast src|ot it|ot it|]; cbn [cell_ok] in Hok; [| | | |discriminate].
+  - (* memcpy *)
+    split_andb. match goal with H : gdtype_eqb _ _ = true |- _ => apply gdtype_eqb_eq in H; subst tout end.
+    cbn [eval_cell]. match goal with H : (_ =? _) = true |- _ => rewrite H end.
+    rewrite Z.eqb_refl. cbn [andb].
+    unfold spec_conv, spec_elem in Hs.
+    destruct (gd_complex tin); destruct comps as [|b0 [|b1 [|b2 l]]]; try discriminate;
+      rewrite ?conv_elem_same in Hs; cbn [opt_bind] in Hs; injection Hs as <-; reflexivity.
+  - (* loop *)
+    split_andb. unfold elem_ok in *.
+    match goal with H : elem_ok _ _ _ _ _ = true |- _ => idtac | _ => idtac end.
+    cbn [eval_cell].
+    match goal with H : Bool.eqb twice _ = true |- _ => apply eqb_prop in H; subst twice end.
+    match goal with H : Bool.eqb (gd_complex tin) _ = true |- _ => apply eqb_prop in H end.
+    match goal with H : _ && _ && _ = true |- _ => pose proof H as Hel end.
+    apply andb_prop in Hel as [Hel _]. apply andb_prop in Hel as [Hb1 Hb2].
+    rewrite Hb1, Hb2.
+    assert (He : forall b y, conv_elem (gd_elem tout) (gd_elem tout) (gd_elem tin) b = Some y -> conv_elem dst cast src b = Some y).
+    { intros b y. apply elem_ok_sound. unfold elem_ok. assumption. }
+    unfold spec_conv, spec_elem in Hs.
+    destruct (gd_complex tin) eqn:Ci; match goal with H : _ = gd_complex tout |- _ => rewrite <- H in * end; cbn [andb negb].
+    + destruct comps as [|b0 [|b1 [|b2 l]]]; try discriminate.
+      destruct (conv_elem _ _ _ b0) as [r0|] eqn:E0; [|discriminate]. cbn [opt_bind] in Hs.
+      destruct (conv_elem _ _ _ b1) as [r1|] eqn:E1; [|discriminate]. cbn [opt_bind] in Hs.
+      injection Hs as <-. cbn [map_opt]. rewrite (He _ _ E0), (He _ _ E1). reflexivity.
+    + destruct comps as [|b0 [|b1 l]]; try discriminate.
+      destruct (conv_elem _ _ _ b0) as [r0|] eqn:E0; [|discriminate]. cbn [opt_bind] in Hs.
+      injection Hs as <-. cbn [map_opt]. rewrite (He _ _ E0). reflexivity.
+  - (* to complex *)
+    split_andb. cbn [eval_cell].
+    match goal with H : elem_ok _ _ _ _ _ = true |- _ => pose proof H as Hel; unfold elem_ok in H end.
+    split_andb.
+    repeat match goal with H : (_ =? _) = true |- _ => rewrite H end.
+    repeat match goal with H : negb _ = true |- _ => rewrite H end.
+    repeat match goal with H : gd_complex _ = true |- _ => rewrite H end.
+    repeat match goal with H : cfloat _ = true |- _ => rewrite H end.
+    cbn [andb].
+    unfold spec_conv, spec_elem in Hs.
+    match goal with H : negb (gd_complex tin) = true |- _ => apply negb_true_iff in H; rewrite H in Hs end.
+    match goal with H : gd_complex tout = true |- _ => rewrite H in Hs end.
+    destruct comps as [|b0 [|b1 l]]; try discriminate.
+    destruct (conv_elem _ _ _ b0) as [r0|] eqn:E0; [|discriminate]. cbn [opt_bind] in Hs.
+    injection Hs as <-. rewrite (elem_ok_sound _ _ _ _ _ _ _ Hel E0). reflexivity.
+  - (* from complex *)
+    split_andb. cbn [eval_cell].
+    match goal with H : elem_ok _ _ _ _ _ = true |- _ => pose proof H as Hel; unfold elem_ok in H end.
+    split_andb.
+    repeat match goal with H : (_ =? _) = true |- _ => rewrite H end.
+    repeat match goal with H : negb _ = true |- _ => rewrite H end.
+    repeat match goal with H : gd_complex _ = true |- _ => rewrite H end.
+    repeat match goal with H : cfloat _ = true |- _ => rewrite H end.
+    cbn [andb].
+    unfold spec_conv, spec_elem in Hs.
+    match goal with H : negb (gd_complex tout) = true |- _ => apply negb_true_iff in H; rewrite H in Hs end.
+    match goal with H : gd_complex tin = true |- _ => rewrite H in Hs end.
+    destruct comps as [|b0 [|b1 [|b2 l]]]; try discriminate.
+    destruct (conv_elem _ _ _ b0) as [r0|] eqn:E0; [|discriminate]. cbn [opt_bind] in Hs.
+    injection Hs as <-. rewrite (elem_ok_sound _ _ _ _ _ _ _ Hel E0). reflexivity.
+Qed.
